@@ -12,6 +12,7 @@ import tempfile
 REPO = os.environ.get("VERIF_REPO", "/repo")
 _DIR = None
 _DONE = False
+_BUILT = set()
 
 PYSCF_DEPS = "/venv/lib/python3.12/site-packages/pyscf/lib/deps"
 STUBS = os.path.join(os.path.dirname(os.path.dirname(os.path.abspath(__file__))), "stubs")
@@ -19,6 +20,13 @@ STUBS = os.path.join(os.path.dirname(os.path.dirname(os.path.abspath(__file__)))
 
 def libdir():
     global _DIR
+    if _DIR is None and os.environ.get("VERIF_LIBDIR") and os.path.isdir(os.environ["VERIF_LIBDIR"]):
+        # a parent process already built the libraries from the current tree (CrossHair / valgrind children)
+        _DIR = os.environ["VERIF_LIBDIR"]
+        if os.path.exists(os.path.join(_DIR, "libmcider.so")):
+            _BUILT.add("base")
+        if os.path.exists(os.path.join(_DIR, "libfft_wrapper.so")):
+            _BUILT.add("fft")
     if _DIR is None:
         _DIR = tempfile.mkdtemp(prefix="verif_libs_")
         atexit.register(shutil.rmtree, _DIR, True)
@@ -29,9 +37,6 @@ def _run(cmd):
     p = subprocess.run(cmd, stdout=subprocess.PIPE, stderr=subprocess.STDOUT, text=True)
     if p.returncode != 0:
         raise RuntimeError("build failed: %s\n%s" % (" ".join(cmd), p.stdout[-3000:]))
-
-
-_BUILT = set()
 
 
 def build(with_fft=False):
